@@ -1,11 +1,25 @@
 #!/bin/bash
-# (Re)extract the executable models and build build/modelrun.  Requires the .vo files (make -C coq).
+# (Re)extract the executable models and build build/modelrun (and build/cdprun, the generated C07 model).
+# Requires the .vo files (make -C coq).   usage: build_model.sh [main|cdp|all]
 set -e
 cd "$(dirname "$0")/.."
-mkdir -p build
-cd build
-timeout 600 coqc -Q ../coq PGM ../coq/Extract/Extract.v >extract.log 2>&1 || { cat extract.log; exit 1; }
-cp ../ocaml/*.ml .
-DRV=$(ls drv_*.ml | sort | tr '\n' ' ')
-timeout 600 ocamlfind ocamlopt -w -a -O2 -package str model.mli model.ml io.ml $DRV main.ml -o modelrun 2>build.log || \
-timeout 600 ocamlfind ocamlopt -w -a model.mli model.ml io.ml $DRV main.ml -o modelrun 2>build.log || { cat build.log; exit 1; }
+what="${1:-all}"
+mkdir -p build/main build/cdp
+if [ "$what" = main ] || [ "$what" = all ]; then
+  cd build/main
+  timeout 900 coqc -Q ../../coq PGM ../../coq/Extract/Extract.v >extract.log 2>&1 || { cat extract.log; exit 1; }
+  cp ../../ocaml/*.ml .
+  DRV=$(ls drv_*.ml | sort | tr '\n' ' ')
+  timeout 900 ocamlfind ocamlopt -w -a -O2 model.mli model.ml io.ml $DRV main.ml -o ../modelrun.new 2>build.log || \
+  timeout 900 ocamlfind ocamlopt -w -a model.mli model.ml io.ml $DRV main.ml -o ../modelrun.new 2>build.log || { cat build.log; exit 1; }
+  mv ../modelrun.new ../modelrun
+  cd ../..
+fi
+if [ "$what" = cdp ] || [ "$what" = all ]; then
+  cd build/cdp
+  rm -f ../cdprun
+  timeout 600 coqc -Q ../../coq PGM ../../coq/Extract/ExtractCdp.v >extract.log 2>&1 || { cat extract.log; exit 1; }
+  cp ../../ocaml/cdp/cdp_main.ml .
+  timeout 600 ocamlfind ocamlopt -w -a cdp_model.mli cdp_model.ml cdp_main.ml -o ../cdprun 2>build.log || { cat build.log; exit 1; }
+  cd ../..
+fi
